@@ -80,9 +80,13 @@ def check_stream(part, text, meta, got, ended, mon, lib, npop):
     def okey(x):
         # documented order: an all-day value sorts before timed values of the same day
         return (x.date(), 1, x.time()) if isinstance(x, D.datetime) else (x, 0, D.time(0, 0))
-    for a, b in zip(got, got[1:]):
+    for i, (a, b) in enumerate(zip(got, got[1:])):
         if not okey(a) < okey(b):
-            fails.append(("not-increasing", "%s then %s" % (a, b)))
+            # the stream hands out 63 occurrences per cache fill: a pair split by a refill is a failure of its own kind
+            # when the rule's candidates can leave the period they are computed in (listed finding), anything else is not
+            reach = any(("SHIFT=" in t or "BYEASTER=" in t) for t in meta["rules"])
+            kind = "not-increasing/at-refill" if reach and (i + 1) % 63 == 0 and okey(a) != okey(b) else "not-increasing"
+            fails.append((kind, "%s then %s (positions %d, %d)" % (a, b, i, i + 1)))
             break
     lb = lower_bound(meta, lib)
     if lb is not None and got:
@@ -107,6 +111,34 @@ def check_stream(part, text, meta, got, ended, mon, lib, npop):
     return fails
 
 
+def gen_cross(rng):
+    """rules whose candidates leave the period they are computed in (an Easter offset or a SHIFT reaching into another
+    year or month): neighbouring periods overlap in time, which is where a cache refill can get the order wrong"""
+    import datetime as D
+    dtstart = D.datetime(rng.randint(1990, 2060), rng.randint(1, 12), rng.randint(1, 28), rng.randint(0, 23), rng.randint(0, 59), 0)
+    k = rng.random()
+    if k < 0.5:
+        far = rng.choice([366, 365, 340, 300, 280, -150, -200, -300, -366])
+        offs = [far] + [rng.choice([-46, -2, 0, 1, 39, 49, 60, -60, 100]) for _ in range(rng.randint(1, 2))]
+        rng.shuffle(offs)
+        rule = "FREQ=YEARLY;%sBYEASTER=%s" % (rng.choice(["", "", "INTERVAL=2;"]), ",".join(map(str, offs)))
+    elif k < 0.8:
+        rule = "FREQ=YEARLY;BYMONTH=%s;BYMONTHDAY=%s;SHIFT=%d" % (
+            ",".join(map(str, sorted(rng.sample(range(1, 13), rng.randint(1, 3))))), ",".join(map(str, sorted(rng.sample(range(1, 29), rng.randint(1, 2))))),
+            rng.choice([200, 300, 365, -200, -300, -365, 100, -100]))
+    else:
+        rule = "FREQ=MONTHLY;BYMONTHDAY=%s;SHIFT=%d" % (",".join(map(str, sorted(rng.sample(range(1, 29), rng.randint(1, 3))))),
+                                                      rng.choice([20, 31, 40, 59, -20, -31, -40, -59]))
+    r = {"freq": rule.split(";")[0].split("=")[1]}
+    if rng.random() < 0.3:
+        r["count"] = rng.choice([64, 65, 128, 129, 200])
+        rule += ";COUNT=%d" % r["count"]
+    text = "\n".join(["BEGIN:VCALENDAR", "VERSION:2.0", "BEGIN:VEVENT", "UID:ev@verif", "SUMMARY:x",
+                      "DTSTART:" + dtstart.strftime("%Y%m%dT%H%M%SZ"), "RRULE:" + rule, "END:VEVENT", "END:VCALENDAR", ""])
+    meta = {"dtstart": dtstart, "is_date": False, "tzid": None, "dtscale": None, "rules": [rule], "rule_objs": [r], "untils": [None]}
+    return text, meta
+
+
 def worker(args):
     root, seed, tier, wid, nw, ncases = args
     part = Part()
@@ -115,7 +147,11 @@ def worker(args):
     rng = rng_for(seed, PROP, wid)
     try:
         for _ in range(ncases):
-            text, meta = evgen.gen_event(rng, odd=True)
+            if rng.random() < 0.08:
+                text, meta = gen_cross(rng)
+                part.count("cross_period_rules")
+            else:
+                text, meta = evgen.gen_event(rng, odd=True)
             npop = rng.choice([70, 200, 600]) if tier == "quick" else rng.choice([200, 600, 2000, 5000])
             style = rng.choice(["pop", "pop", "peekpop"])
             part.evaluations += 1
@@ -130,7 +166,23 @@ def worker(args):
             part.count("refills_crossed", len(got) // 63)
             if len(got) >= 2:
                 part.nontrivial.add(sig(meta))
-            for kind, detail in check_stream(part, text, meta, got, ended, mon, lib, npop):
+            fails = check_stream(part, text, meta, got, ended, mon, lib, npop)
+            if len(meta["rules"]) > 1 and any(k == "not-increasing" for k, _ in fails):
+                # in a merged event the refills of the single rules fall anywhere: look at each rule on its own
+                kinds = set()
+                for t in meta["rules"]:
+                    solo = "\n".join(l for l in text.split("\n") if not l.startswith("RRULE:") or l == "RRULE:" + t)
+                    try:
+                        g1, e1, m1 = parse_occ(srv.case("n=%d style=pop budget=15000" % npop, solo))
+                    except HarnessCrash:
+                        kinds.add("crash")
+                        continue
+                    m1meta = dict(meta, rules=[t], rule_objs=[{}], untils=[None])
+                    kinds |= {k for k, _ in check_stream(part, solo, m1meta, g1, e1, None, lib, npop) if k.startswith("not-increasing")}
+                if kinds == {"not-increasing/at-refill"}:
+                    fails = [(("not-increasing/at-refill", d + " (the single rule shows it at its own refill)") if k == "not-increasing" else (k, d))
+                             for k, d in fails]
+            for kind, detail in fails:
                 part.violation(kind_key(meta, kind), {"input": text, "n": npop, "style": style, "detail": detail,
                                                       "observed": [str(x) for x in got[:8]],
                                                       "summary": "%s DTSTART %s%s: %s %s" % (" | ".join(meta["rules"]), meta["dtstart"],
@@ -176,4 +228,4 @@ def replay(path):
     print([str(x) for x in got[:30]])
     bad = [(a, b) for a, b in zip(got, got[1:]) if not a < b]
     print("recorded:", w["key"], w.get("detail"), "| order violations now:", bad[:3])
-    return 1 if bad or w["key"].split("/")[-1] != "not-increasing" else 0
+    return 1 if bad or "not-increasing" not in w["key"] else 0
